@@ -118,6 +118,10 @@ bool linepart::array::apply(const transform &tr, int dim, span<const double> src
 		// no visible points
 		if (!old.usr || !len) {
 			pt = old;
+			// remaining part without drawn points
+			if (!pt.usr) {
+				pt._cut = pt._trim = 0;
+			}
 			// skip invisible data
 			if (len > pt.raw) {
 				len -= pt.raw;
